@@ -36,6 +36,16 @@ CHECKS = {
          "Mode S enumerates every oracle state (no output / pending / final / deleted / re-proposed with another root / claimed / other bridge holds the same root) for tree sizes 1-5 (quick) / 1-9 (thorough); in every state and for every leaf position the whole perturbation family (each field, every proof element bit flips/replacements/swaps/truncations, proof length, output index, version bits, storage root, block hash, whole-preimage swaps, +2^64 amount, pairs of field representatives) is executed on the real FinalizeTokenWithdrawal handler and compared with an independent verifier (own SHA3): accepted => verifier-valid, pays the claimed amount to the claimed recipient and records the claim; rejected => digest unchanged.",
          "Trusted: as C11 plus the independent SHA3/leaf/node/output-root reference pinned to Python hashlib vectors. Bounded: tree sizes and perturbation menus as listed in the evidence.",
          "DESIGN.md §6 C03"),
+ "C06": ("model_checking",
+         "explicit-state IDDFS over real handlers + sequence/ledger model",
+         "Exhaustive enumeration of all delivery schedules over 4 L1 sequences x 3 senders (two executors, a stranger) x 2 contents (original / altered replay), interleaved with user withdrawals, transfers and executor-list changes via ExecuteMessages; the reachable state space saturates well below the depth bound. Oracle per transition: seq < next => NOOP + unchanged digest + no event, seq > next => error + unchanged, seq = next => SUCCESS, one event, credited or refunded exactly once, next+1; non-executor => unauthorised, unchanged; NextL1Sequence/NextL2Sequence queries, balances, supply = model in every state.",
+         "Trusted: Go toolchain, cosmos-sdk store/auth/bank, harness world construction (mirrors the repo's test setup), runTx semantics. Bounded: 4 sequences, depth 8 (quick) / 11 (thorough).",
+         "DESIGN.md §6 C06"),
+ "C09": ("model_checking",
+         "explicit-state IDDFS over real handlers + supply/balance ledger",
+         "Exhaustive enumeration of deposit (credited and refunded, conflicting base denoms), transfer and withdrawal histories over bridged, native and unknown denoms, three signers and amounts {1, balance, balance+1}; oracle: supply and every balance = ledger in every state, an accepted withdrawal burns exactly its amount from the signer only, gets the shared gap-free L2 sequence, emits one faithful event whose base denom is the first mapping; native/unknown/over-balance withdrawals are rejected with an unchanged digest; BaseDenom and NextL2Sequence queries = model.",
+         "Trusted: as C06. Bounded: depth 6 (quick) / 8 (thorough).",
+         "DESIGN.md §6 C09"),
 }
 NOT_YET = {}
 
